@@ -225,6 +225,17 @@ func checkC06(c *Ctx) {
 			c.Inconclusive("learn: " + err.Error())
 			return
 		}
+		if f, ok := sh.s.(*fieldSDF3); ok && sh.kind == "plane" && i%14 == 0 {
+			// a plane lying exactly in a lattice plane: every node on it evaluates to exactly 0
+			axis := r.I(3)
+			coords := [3][]float64{lat.xs, lat.ys, lat.zs}[axis]
+			k := r.IR(2, (len(coords)-1)/lat.stride-2) * lat.stride
+			d := coords[k]
+			sgn := r.Sign()
+			f.fn = func(p v3.Vec) float64 { return sgn * (p.Get(axis) - d) }
+			sh.desc = fmt.Sprintf("plane through the lattice plane axis %d = %.17g (sign %+g)", axis, d, sgn)
+			cs.Shape = sh.desc
+		}
 		rec := &recSDF3{s: sh.s}
 		ts := render.ToTriangles(rec, rd)
 		c.Eval(1)
